@@ -1,169 +1,285 @@
 package main
 
 import (
-	"go/token"
 	"go/types"
+	"sort"
+	"strings"
 
 	"golang.org/x/tools/go/ssa"
 	"golang.org/x/tools/go/ssa/ssautil"
 )
 
-// Syntactic frame analysis. WritesExisting[f][K] = f (or something it calls) may store into a cell of heap key K that
-// existed before f was entered. If K is written by f but not in this set, every such write provably targets memory
-// allocated during the call, so a caller may keep what it knows about K-cells that existed before the call.
+// Syntactic frame analysis.
+//
+// For every library function f and heap key K, WE[f][K] describes which cells of K that existed BEFORE the call f may
+// write: cells rooted at (the allocation of) one of its parameters (`params`), or anything (`other`). A write to
+// memory allocated during the call itself is not recorded. Callers use this to keep what they know about cells that
+// existed before a call and are not rooted at one of the listed arguments; loop heads use the same classification for
+// the loop body. The analysis follows address chains (field/index/slice of a value) but never through loads: a pointer
+// loaded from memory is `other`.
 
-func valueFresh(v ssa.Value, visiting map[ssa.Value]bool) bool {
+type wclass struct {
+	other  bool
+	params map[int]bool
+}
+
+type rootKind int
+
+const (
+	rootFresh rootKind = iota // allocated by this function (Alloc, make, literal, append of fresh, string conversion)
+	rootParam
+	rootOther
+)
+
+type rootInfo struct {
+	kind  rootKind
+	param int
+	sites []ssa.Value // for rootFresh: every allocation site the value may derive from (constants contribute none)
+}
+
+func classifyRoot(v ssa.Value, fn *ssa.Function, visiting map[ssa.Value]bool) rootInfo {
 	if visiting[v] {
-		return true // co-inductive: a cycle of phis/appends over fresh values stays fresh
+		return rootInfo{kind: rootFresh}
 	}
 	switch x := v.(type) {
 	case *ssa.Alloc, *ssa.MakeSlice, *ssa.MakeMap, *ssa.MakeClosure, *ssa.MakeInterface, *ssa.MakeChan:
-		return true
+		return rootInfo{kind: rootFresh, sites: []ssa.Value{v}}
 	case *ssa.Const:
-		return true
-	case *ssa.FieldAddr:
-		return valueFresh(x.X, visiting)
-	case *ssa.IndexAddr:
-		return valueFresh(x.X, visiting)
-	case *ssa.Slice:
-		return valueFresh(x.X, visiting)
-	case *ssa.ChangeType:
-		return valueFresh(x.X, visiting)
-	case *ssa.Convert:
-		if _, isStr := under(x.X.Type()).(*types.Basic); isStr {
-			return true // []byte(string) allocates
+		return rootInfo{kind: rootFresh}
+	case *ssa.Parameter:
+		for i, p := range fn.Params {
+			if p == x {
+				return rootInfo{kind: rootParam, param: i}
+			}
 		}
-		return valueFresh(x.X, visiting)
+		return rootInfo{kind: rootOther}
+	case *ssa.FieldAddr:
+		return classifyRoot(x.X, fn, visiting)
+	case *ssa.IndexAddr:
+		return classifyRoot(x.X, fn, visiting)
+	case *ssa.Slice:
+		return classifyRoot(x.X, fn, visiting)
+	case *ssa.ChangeType:
+		return classifyRoot(x.X, fn, visiting)
+	case *ssa.Convert:
+		if b, isB := under(x.X.Type()).(*types.Basic); isB && b.Info()&types.IsString != 0 {
+			return rootInfo{kind: rootFresh, sites: []ssa.Value{v}}
+		}
+		return classifyRoot(x.X, fn, visiting)
 	case *ssa.Phi:
 		visiting[v] = true
 		defer delete(visiting, v)
+		res := rootInfo{kind: rootFresh}
 		for _, e := range x.Edges {
-			if !valueFresh(e, visiting) {
-				return false
+			r := classifyRoot(e, fn, visiting)
+			if r.kind == rootOther {
+				return r
+			}
+			if r.kind == rootParam {
+				if res.kind == rootParam && res.param != r.param {
+					return rootInfo{kind: rootOther}
+				}
+				if res.kind == rootFresh && len(res.sites) > 0 {
+					return rootInfo{kind: rootOther} // mixes a parameter with local allocations
+				}
+				res = r
+				continue
+			}
+			if res.kind == rootParam {
+				if len(r.sites) > 0 {
+					return rootInfo{kind: rootOther}
+				}
+				continue
+			}
+			for _, st := range r.sites {
+				dup := false
+				for _, o := range res.sites {
+					if o == st {
+						dup = true
+					}
+				}
+				if !dup {
+					res.sites = append(res.sites, st)
+				}
 			}
 		}
-		return true
+		return res
 	case *ssa.Call:
 		if b, ok := x.Call.Value.(*ssa.Builtin); ok && b.Name() == "append" {
 			visiting[v] = true
 			defer delete(visiting, v)
-			return valueFresh(x.Call.Args[0], visiting)
+			r := classifyRoot(x.Call.Args[0], fn, visiting)
+			if r.kind == rootFresh {
+				// result is either the old array or a new one allocated by this append
+				r.sites = append(append([]ssa.Value{}, r.sites...), v)
+			}
+			return r
 		}
 	}
-	return false
+	return rootInfo{kind: rootOther}
 }
 
-// loopWritesExisting: heap keys for which some write inside the loop may hit memory that existed at function entry.
-func (w *World) blockWritesExisting(blocks map[*ssa.BasicBlock]bool, fn *ssa.Function) map[string]bool {
-	out := map[string]bool{}
-	for _, b := range fn.Blocks {
-		if blocks != nil && !blocks[b] {
-			continue
-		}
-		for _, ins := range b.Instrs {
-			w.instrWritesExisting(ins, out)
+// writeEvent: one potential write to pre-existing memory of key K.
+type writeEvent struct {
+	key  string
+	root rootInfo
+	at   ssa.Instruction
+	arg  ssa.Value // the value whose allocation is written (address or slice); nil if unknown
+}
+
+// instrWrites lists the heap writes of one instruction (stores, append/copy, callee effects mapped to arguments).
+func (w *World) instrWrites(ins ssa.Instruction, fn *ssa.Function) []writeEvent {
+	var out []writeEvent
+	add := func(keys []string, v ssa.Value) {
+		r := classifyRoot(v, fn, map[ssa.Value]bool{})
+		for _, k := range keys {
+			out = append(out, writeEvent{key: k, root: r, at: ins, arg: v})
 		}
 	}
-	return out
-}
-
-func (w *World) instrWritesExisting(ins ssa.Instruction, out map[string]bool) {
-	add := func(ks []string) {
-		for _, k := range ks {
-			out[k] = true
+	other := func(keys map[string]bool) {
+		for k := range keys {
+			if strings.HasPrefix(k, "$") {
+				continue
+			}
+			out = append(out, writeEvent{key: k, root: rootInfo{kind: rootOther}, at: ins})
 		}
 	}
 	switch x := ins.(type) {
 	case *ssa.Store:
-		if isLocalNonEscaping(x.Addr) || valueFresh(x.Addr, map[ssa.Value]bool{}) {
-			return
+		if isLocalNonEscaping(x.Addr) {
+			return nil
 		}
-		add(w.storeKey(x.Addr))
+		add(w.storeKey(x.Addr), x.Addr)
 	case *ssa.MapUpdate:
-		out["map"] = true
+		out = append(out, writeEvent{key: "map", root: rootInfo{kind: rootOther}, at: ins})
 	case ssa.CallInstruction:
 		c := x.Common()
 		if c.IsInvoke() {
-			for k := range w.invokeWrites(c) {
-				out[k] = true
-			}
-			return
+			other(w.invokeWrites(c))
+			return out
 		}
 		switch cv := c.Value.(type) {
 		case *ssa.Builtin:
 			switch cv.Name() {
 			case "append", "copy":
-				if valueFresh(c.Args[0], map[ssa.Value]bool{}) {
-					return
-				}
 				if st, ok := under(c.Args[0].Type()).(*types.Slice); ok {
-					add(w.keysOfType(st.Elem()))
+					add(w.keysOfType(st.Elem()), c.Args[0])
 				}
 			case "delete":
-				out["map"] = true
+				out = append(out, writeEvent{key: "map", root: rootInfo{kind: rootOther}, at: ins})
 			}
 		case *ssa.Function:
-			if cv.Blocks != nil && cv.Pkg != nil && isLibPkg(cv.Pkg.Pkg.Path()) {
-				for k := range w.WritesExisting[cv] {
-					out[k] = true
-				}
-				return
-			}
-			ws := w.externalWrites(cv)
-			if ws["T:uint8"] && len(ws) == 1 {
-				// byte-writing externals write the buffer argument(s) only
-				allFresh := true
-				for _, a := range c.Args {
-					if st, ok := under(a.Type()).(*types.Slice); ok && typeKey(st.Elem()) == "uint8" {
-						if !valueFresh(a, map[ssa.Value]bool{}) {
-							allFresh = false
+			if we, isLib := w.WE[cv]; isLib {
+				for k, wc := range we {
+					if wc.other {
+						out = append(out, writeEvent{key: k, root: rootInfo{kind: rootOther}, at: ins})
+					}
+					for i := range wc.params {
+						if i < len(c.Args) {
+							add([]string{k}, c.Args[i])
 						}
 					}
 				}
-				if allFresh {
-					return
-				}
+				return out
 			}
-			for k := range ws {
-				if k[0] != '$' {
-					out[k] = true
+			ws := w.externalWrites(cv)
+			delete(ws, "$consumed")
+			if ws["T:uint8"] && len(ws) == 1 {
+				// byte-writing externals write their byte-slice argument(s) only
+				for _, a := range c.Args {
+					if st, ok := under(a.Type()).(*types.Slice); ok && typeKey(st.Elem()) == "uint8" {
+						add([]string{"T:uint8"}, a)
+					}
 				}
+				return out
 			}
+			other(ws)
 		case *ssa.MakeClosure:
-			if fn, ok := cv.Fn.(*ssa.Function); ok {
-				for k := range w.WritesExisting[fn] {
-					out[k] = true
+			if f2, ok := cv.Fn.(*ssa.Function); ok {
+				if we, isLib := w.WE[f2]; isLib {
+					for k, wc := range we {
+						if wc.other || len(wc.params) > 0 {
+							out = append(out, writeEvent{key: k, root: rootInfo{kind: rootOther}, at: ins})
+						}
+					}
 				}
 			}
 		default:
-			for k := range w.funcValueWrites(c) {
-				out[k] = true
-			}
+			other(w.funcValueWrites(c))
 		}
 	}
-	_ = token.NoPos
+	return out
 }
 
 func (w *World) computeWritesExisting() {
-	w.WritesExisting = map[*ssa.Function]map[string]bool{}
+	w.WE = map[*ssa.Function]map[string]*wclass{}
 	var lib []*ssa.Function
 	for f := range ssautil.AllFunctions(w.Prog) {
 		if f.Pkg == nil || !isLibPkg(f.Pkg.Pkg.Path()) || f.Blocks == nil {
 			continue
 		}
 		lib = append(lib, f)
-		w.WritesExisting[f] = map[string]bool{}
+		w.WE[f] = map[string]*wclass{}
 	}
+	sort.Slice(lib, func(i, j int) bool { return lib[i].String() < lib[j].String() })
 	for changed := true; changed; {
 		changed = false
 		for _, f := range lib {
-			cur := w.blockWritesExisting(nil, f)
-			for k := range cur {
-				if !w.WritesExisting[f][k] {
-					w.WritesExisting[f][k] = true
-					changed = true
+			for _, b := range f.Blocks {
+				for _, ins := range b.Instrs {
+					for _, ev := range w.instrWrites(ins, f) {
+						if ev.root.kind == rootFresh {
+							continue
+						}
+						wc := w.WE[f][ev.key]
+						if wc == nil {
+							wc = &wclass{params: map[int]bool{}}
+							w.WE[f][ev.key] = wc
+							changed = true
+						}
+						if ev.root.kind == rootOther && !wc.other {
+							wc.other = true
+							changed = true
+						}
+						if ev.root.kind == rootParam && !wc.params[ev.root.param] {
+							wc.params[ev.root.param] = true
+							changed = true
+						}
+					}
 				}
 			}
 		}
 	}
 }
+
+// loopFrame: for the loop body `blocks`, what may be written per key. plain[K]: anything; except[K]: allocations (SSA
+// values defined outside the loop) whose cells may be written; keys written only in memory allocated inside the loop
+// body (or inside callees) appear in neither.
+func (w *World) loopFrame(blocks map[*ssa.BasicBlock]bool, fn *ssa.Function) (plain map[string]bool, except map[string][]ssa.Value) {
+	plain = map[string]bool{}
+	except = map[string][]ssa.Value{}
+	for _, b := range fn.Blocks {
+		if !blocks[b] {
+			continue
+		}
+		for _, ins := range b.Instrs {
+			for _, ev := range w.instrWrites(ins, fn) {
+				switch ev.root.kind {
+				case rootOther:
+					plain[ev.key] = true
+				case rootParam:
+					except[ev.key] = append(except[ev.key], fn.Params[ev.root.param])
+				case rootFresh:
+					for _, st := range ev.root.sites {
+						if si, ok := st.(ssa.Instruction); ok && blocks[si.Block()] {
+							continue // allocated inside the loop body
+						}
+						except[ev.key] = append(except[ev.key], st)
+					}
+				}
+			}
+		}
+	}
+	return
+}
+
